@@ -333,14 +333,17 @@ def run(ctx):
 
     # four looms; the 2nd and the 4th are on the host of the table entry (one loom per process: a host with
     # several processes has several looms, and every one of them needs the host's offset)
-    def s_strcmp(ex_, st_, a, f, e):
-        hn = [PTR(l, F("loom", "hostname") + (0,)) for l in ("L2", "L4")]
-        same = a[0] in hn or a[1] in hn
-        return [(INT(0 if same else 1), {})]
-    ex = absint.Explorer(prog, effects=eff, loop_bound=8, summaries={"strcmp": s_strcmp})
+    # concrete host names (one is a proper prefix of another, one a proper extension), compared by whatever
+    # string routine or loop the code uses
+    from rules.strutil import FOLD as _FOLD
+    ex = absint.Explorer(prog, effects=eff, loop_bound=12, summaries=dict(_FOLD))
     store = {("L1", F("loom", "next")): PTR("L2"), ("L2", F("loom", "next")): PTR("L3"),
              ("L3", F("loom", "next")): PTR("L4"), ("L4", F("loom", "next")): NULL,
-             ("ENT", F("clkoff_entry", "median")): INT(42)}
+             ("ENT", F("clkoff_entry", "median")): INT(42), ("ENT", F("clkoff_entry", "name")): ("str", "node7"),
+             ("L1", F("loom", "hostname")): ("str", "node"), ("L2", F("loom", "hostname")): ("str", "node7"),
+             ("L3", F("loom", "hostname")): ("str", "node71"), ("L4", F("loom", "hostname")): ("str", "node7")}
+    for l in ("L1", "L2", "L3", "L4"):
+        store[(l, F("loom", "id"))] = ("str", "loom." + l)
     for l in ("L1", "L2", "L3", "L4"):
         store[(l, F("loom", "clock_offset"))] = INT(0)
     outs = [o for o in ex.run(pc, [PTR("L1"), PTR("ENT")], store) if o.kind == "ret" and o.ret == INT(0)]
